@@ -85,6 +85,7 @@ class RoleFlow:
         self.keyed = {}                     # (container name, constant key) -> abstract value
         self.links = {}                     # (container name, constant key) -> names of containers stored there
         self.keys = {}                      # container name -> roles of the non-constant keys it is stored under
+        self.callargs = {}                  # (called name, position or keyword) -> abstract value handed over
         self.changed = False
         self.local = []                     # stack of name -> value overrides (comprehension items)
 
@@ -127,10 +128,17 @@ class RoleFlow:
             roles = frozenset()
             if isinstance(e.func, ast.Attribute):
                 roles |= flat(self.ev(e.func.value))
-            for a in e.args:
-                roles |= flat(self.ev(a.value if isinstance(a, ast.Starred) else a))
+            fname = e.func.attr if isinstance(e.func, ast.Attribute) else (e.func.id if isinstance(e.func, ast.Name) else None)
+            for k_, a in enumerate(e.args):
+                v_ = self.ev(a.value if isinstance(a, ast.Starred) else a)
+                roles |= flat(v_)
+                if fname:
+                    self.put(self.callargs, (fname, k_), v_)
             for k in e.keywords:
-                roles |= flat(self.ev(k.value))
+                v_ = self.ev(k.value)
+                roles |= flat(v_)
+                if fname and k.arg:
+                    self.put(self.callargs, (fname, k.arg), v_)
             return S(roles)
         if isinstance(e, (ast.ListComp, ast.GeneratorExp)) and len(e.generators) == 1 and not e.generators[0].ifs and isinstance(e.generators[0].target, ast.Name):
             # a map over a sequence whose positions are known keeps the positions
